@@ -107,6 +107,12 @@ CHECKS = {
             "response, handler start) must equal the specification's modulo the latitude RFC 9113 gives; unexpected handler starts are checked at the end of every path.",
             "The permitted set is the tabulated reaction plus two latitude rules, not an independent RFC transcription; reset-in-flight states and steps inside an open header block "
             "that do not end in GOAWAY are not observable with a barrier and are cut."),
+    'C14': ("CertReload.tla / CertReloadK8s.tla (file system with inodes and symlinks, inotify event model, watcher steps interleaved with writer steps) checked by TLC for all "
+            "interleavings incl. torn two-file reads, with a non-vacuity mutant; histories of the serialized models replayed with real syscalls on a real directory against the real "
+            "certwatcher and real inotify, served pair compared after every step, real TLS handshakes, stress phase",
+            "Safety (only valid matching pairs, last good pair kept) and convergence are decided for every update history in the bound in all three supported styles; the real watcher "
+            "must serve exactly the version the specification predicts after each step of hundreds of histories - which also validates the kernel event model instead of trusting it.",
+            "Quiescence is detected through the event hooks (verdict only after a solitary re-run); the torn read inside tls.LoadX509KeyPair is decided in the model only."),
 }
 
 NOT_YET = {}
